@@ -61,5 +61,8 @@ C01=[
 ]
 for n,w in C01: known("C01","pin:"+n,w)
 
+known("C13","pin:continue_in_switch_in_dowhile","'do { switch (a) { case 1: continue; } } while (c);' jumps to .dowhileconditionN, a label that is never emitted")
+known("C13","pin:goto_undefined_label","'goto nowhere;' is accepted and emits JMP .nowhere with no such label")
+
 json.dump({"comment":"generated by tools/mk_known.py; checks read it, never write it","findings":K}, open('/verif/known_findings.json','w'), indent=1)
 print(len(K),"entries")
